@@ -3,7 +3,7 @@
 From Coq Require Import ZArith List Bool Arith Lia Permutation.
 Import ListNotations.
 Require Import Nib.Lib.Dec Nib.C10.Model Nib.C10.Spec.
-Require Export Nib.C10.ProofsMedian Nib.C10.ProofsUpdate Nib.C10.ProofsPanic Nib.C10.ProofsIrrelevant.
+Require Export Nib.C10.ProofsMedian Nib.C10.ProofsUpdate Nib.C10.ProofsPanic Nib.C10.ProofsIrrelevant Nib.C10.ProofsHist.
 Local Open Scope Z_scope.
 Local Arguments Z.mul : simpl never.
 Local Arguments Z.add : simpl never.
